@@ -274,6 +274,61 @@ func retracesOwnEdge(p *canvas.Path) bool {
 	return false
 }
 
+// collinearHairpinCurve: a quadratic or cubic record whose control polygon is collinear (every control
+// point within 1e-9·size of the line through the end points; for start = end: the control points collinear
+// with that point) and folds back (the chord is zero, or a control point projects outside the chord): the
+// curve runs out and back along one line, so its stroke outline runs back over itself.
+func collinearHairpinCurve(p *canvas.Path) bool {
+	segs, err := hc.Decode(p.Data())
+	if err != nil {
+		return false
+	}
+	for _, s := range segs {
+		var cps []hc.P2
+		switch s.Kind {
+		case 'Q':
+			cps = []hc.P2{s.P1}
+		case 'C':
+			cps = []hc.P2{s.P1, s.P2}
+		default:
+			continue
+		}
+		size := s.P0.Dist(s.End)
+		for _, c := range cps {
+			size = math.Max(size, math.Max(c.Dist(s.P0), c.Dist(s.End)))
+		}
+		if size == 0 {
+			continue
+		}
+		tol := 1e-9 * size
+		chord := s.End.Sub(s.P0)
+		l := chord.Len()
+		if l <= tol {
+			// start = end: fold-back whenever the control points lie on one line through that point
+			ok := len(cps) == 1 || math.Abs(cps[0].Sub(s.P0).Cross(cps[1].Sub(s.P0))) <= tol*size
+			if ok {
+				return true
+			}
+			continue
+		}
+		u := chord.Mul(1 / l)
+		collinear, outside := true, false
+		for _, c := range cps {
+			d := c.Sub(s.P0)
+			if math.Abs(u.Cross(d)) > tol {
+				collinear = false
+			}
+			if t := d.Dot(u); t < -tol || t > l+tol {
+				outside = true
+			}
+		}
+		if collinear && outside {
+			return true
+		}
+	}
+	return false
+}
+
 // subGridVertices: two distinct record end points of the operands are closer than 2.5 cells of the
 // sweep's snap grid (BentleyOttmannEpsilon = 1e-8), the "sub-grid" class of the C01 residue analysis.
 func subGridVertices(ps ...*canvas.Path) bool {
@@ -488,6 +543,8 @@ func total(c *hc.Ctx, pool []*canvas.Path) {
 							// (hairpin / retraced edge), so both sides of the outline repeat edges of each other
 							if retracesOwnEdge(p) {
 								cause = "+retraces-own-edge"
+							} else if collinearHairpinCurve(p) {
+								cause = "+collinear-hairpin-curve"
 							}
 						}
 						cls += cause
